@@ -133,6 +133,13 @@ func (w *watchers) handlersCore() []*hdlr {
 			upd: func(old, new client.Object) {
 				cmChange(new)
 			},
+			del: func(o client.Object) {
+				// a removed ConfigMap is an empty one, otherwise
+				// its last content would still be in use
+				cm := o.(*api.ConfigMap).DeepCopy()
+				cm.Data = map[string]string{}
+				cmChange(cm)
+			},
 			pr: []predicate.Predicate{
 				predicate.NewPredicateFuncs(func(o client.Object) bool {
 					cm := o.(*api.ConfigMap)
